@@ -82,7 +82,7 @@ type Event struct {
 	// CtxRefused: this deletion ran with a caller deadline over a datastore that refuses operations on a done context
 	CtxRefused bool `json:"ctxRefused"`
 	// Also: heights appended by an OnDelete handler while this deletion ran (reentrant use)
-	Also []int `json:"also"`
+	Also []int `json:"also,omitempty"`
 }
 
 // W is an abstract write-log entry (same shape as Store.tla's writes).
